@@ -101,9 +101,12 @@ func c15Script(c *core.Ctx, o rigOpts, variant int) {
 		t1.Kind = "Start" // an agent that cannot shut down never ends its transactions: no Do is left waiting for one
 		_ = r.start(t1)
 	} else {
-		pre := r.conn.NWrites()
+		// wait for the Do's own first transmission, not for any write: with the ticker collector on the system clock
+		// a retransmission of #1 can come at any moment, and a Do that has not written yet when Close returns may
+		// legitimately write afterwards (it was issued before Close, the statement does not cover it)
+		raw1 := append([]byte(nil), t1.msg.Raw...)
 		go func() { _ = r.do(t1) }()
-		waitFor(func() bool { return t1.returned() || r.conn.NWrites() > pre })
+		waitFor(func() bool { return t1.returned() || r.conn.CountWrites(raw1) > 0 })
 	}
 	if variant&1 == 1 {
 		r.deliver(seqTID(0), response(seqTID(0), "c15"), true)
@@ -167,8 +170,13 @@ func c15Script(c *core.Ctx, o rigOpts, variant int) {
 			return
 		}
 	}
-	if r.conn.NWrites() != writesBefore {
-		fail("write-after-close", "a call issued after Close wrote to the connection")
+	if ws := r.conn.Writes(); len(ws) != writesBefore {
+		var late []string
+		for _, wr := range ws[writesBefore:] {
+			late = append(late, fmt.Sprintf("[%d] %d bytes %x", wr.Stamp, len(wr.Bytes), clip(wr.Bytes)))
+		}
+		fail("write-after-close", fmt.Sprintf("a call issued after Close wrote to the connection: %d write(s) recorded after Close returned: %s",
+			len(late), strings.Join(late, "; ")))
 
 		return
 	}
